@@ -229,7 +229,7 @@ impl fmt::Display for Formatter {
                     }
                     Token::WeekdayDecimal => {
                         write_sep(f, i, &self.format)?;
-                        write!(f, "{}", self.epoch.weekday().to_c89_weekday())?
+                        write!(f, "{}", self.epoch.weekday_of_gregorian_date().to_c89_weekday())?
                     }
                     Token::MonthName => {
                         write_sep(f, i, &self.format)?;
@@ -296,7 +296,7 @@ impl fmt::Display for Formatter {
                     }
                     Token::WeekdayDecimal => {
                         write_sep(f, i, &self.format)?;
-                        write!(f, "{}", self.epoch.weekday().to_c89_weekday())?
+                        write!(f, "{}", self.epoch.weekday_of_gregorian_date().to_c89_weekday())?
                     }
                     Token::Weekday => {
                         write_sep(f, i, &self.format)?;
